@@ -11,6 +11,7 @@ import (
 	"crypto/sha256"
 	"crypto/sha512"
 	"encoding/base64"
+	"encoding/binary"
 	"encoding/hex"
 	"encoding/json"
 	"fmt"
@@ -22,6 +23,7 @@ import (
 	"strconv"
 	"strings"
 	"sync"
+	"sync/atomic"
 	"time"
 
 	"github.com/golang-jwt/jwt/v4"
@@ -44,19 +46,23 @@ const relayTarget = "wss://relay.example.io"
 var rsaKey *rsa.PrivateKey
 
 type wsConn struct {
-	c      *websocket.Conn
-	mu     sync.Mutex
-	frames [][]byte // frames received since the last sync
-	nrecv  uint64   // frames received in total
-	nsent  uint64   // messages written by this client in total
-	expect int      // bytes this connection should have received in total (only used to bound waits)
-	got    int      // bytes received in total
-	closed bool     // the server closed the connection (read error)
-	name   string   // hub client name once joined
+	c        *websocket.Conn
+	mu       sync.Mutex
+	frames   [][]byte // frames received since the last sync
+	nrecv    uint64   // frames received in total
+	nsent    uint64   // messages written by this client in total
+	expect   int      // bytes this connection should have received in total (only used to bound waits)
+	got      int      // bytes received in total
+	closed   bool     // the server closed the connection (read error)
+	name     string   // hub client name once joined
+	paused   int32    // lag scenarios: the client has stopped reading (atomic)
+	eof      bool     // the TCP connection was closed by the server (as opposed to a close frame only)
+	lastRx   int64    // unix nanoseconds of the last frame received (atomic)
+	floodSeq uint32   // next sequence number of this connection's flood records
 }
 
 type relayInst struct {
-	hung int // consecutive operations that timed out
+	hung       int // consecutive operations that timed out
 	closed     chan struct{}
 	hub        *crossbar.Hub
 	cs         *ttlcode.CodeStore
@@ -228,7 +234,11 @@ func buildToken(spec string) string {
 		secret = "some-other-secret"
 	}
 	var sig []byte
-	mac := func(h func() hash.Hash) []byte { m := hmac.New(h, []byte(secret)); m.Write([]byte(signing)); return m.Sum(nil) }
+	mac := func(h func() hash.Hash) []byte {
+		m := hmac.New(h, []byte(secret))
+		m.Write([]byte(signing))
+		return m.Sum(nil)
+	}
 	switch alg {
 	case "HS256", "HS999":
 		sig = mac(sha256.New)
@@ -318,11 +328,31 @@ func (r *relayInst) members() map[string]crossbar.VMember {
 
 func (r *relayInst) reader(w *wsConn) {
 	for {
+		for atomic.LoadInt32(&w.paused) == 1 {
+			time.Sleep(time.Millisecond)
+		}
 		_, data, err := w.c.ReadMessage()
+		atomic.StoreInt64(&w.lastRx, time.Now().UnixNano())
 		w.mu.Lock()
 		if err != nil {
 			w.closed = true
+			_, isClose := err.(*websocket.CloseError)
 			w.mu.Unlock()
+			if isClose {
+				// a close frame: has the server also let go of the socket? (a mute client never answers the close frame)
+				_ = w.c.UnderlyingConn().SetReadDeadline(time.Now().Add(3 * time.Second))
+				buf := make([]byte, 1)
+				_, rerr := w.c.UnderlyingConn().Read(buf)
+				if ne, ok := rerr.(net.Error); !(ok && ne.Timeout()) {
+					w.mu.Lock()
+					w.eof = true
+					w.mu.Unlock()
+				}
+			} else {
+				w.mu.Lock()
+				w.eof = true
+				w.mu.Unlock()
+			}
 			return
 		}
 		w.frames = append(w.frames, data)
@@ -587,6 +617,51 @@ func relayOp(r *relayInst, fs []string) string {
 			}
 		}
 		return "ok"
+	case fs[0] == "stall" && len(fs) == 2, fs[0] == "unstall" && len(fs) == 2:
+		w := r.conn(fs[1])
+		if w == nil {
+			return "bad-op"
+		}
+		if fs[0] == "stall" {
+			atomic.StoreInt32(&w.paused, 1)
+		} else {
+			atomic.StoreInt32(&w.paused, 0)
+		}
+		return "ok"
+	case fs[0] == "muteclose" && len(fs) == 2:
+		w := r.conn(fs[1])
+		if w == nil {
+			return "bad-op"
+		}
+		w.c.SetCloseHandler(func(code int, text string) error { return nil }) // never answers a close frame
+		return "ok"
+	case fs[0] == "flood" && len(fs) == 5:
+		// flood n<k> <count> <size> <tag>: <count> self-describing records (one per frame) of <size> body bytes
+		w := r.conn(fs[1])
+		count, e1 := strconv.Atoi(fs[2])
+		size, e2 := strconv.Atoi(fs[3])
+		tag, e3 := strconv.Atoi(fs[4])
+		if w == nil || e1 != nil || e2 != nil || e3 != nil || count < 0 || size < 0 || tag < 0 || tag > 255 || count > 100000 || size > 1<<20 {
+			return "bad-op"
+		}
+		sent := 0
+		for q := 0; q < count; q++ {
+			_ = w.c.SetWriteDeadline(time.Now().Add(5 * time.Second))
+			if err := w.c.WriteMessage(websocket.BinaryMessage, lagRecord(byte(tag), w.floodSeq, size)); err != nil {
+				break
+			}
+			w.floodSeq++
+			sent++
+		}
+		_ = w.c.SetWriteDeadline(time.Time{})
+		w.nsent += uint64(sent)
+		return "sent " + strconv.Itoa(sent)
+	case fs[0] == "drain" && len(fs) == 2:
+		quiet, err := strconv.Atoi(fs[1])
+		if err != nil || quiet < 1 || quiet > 5000 {
+			return "bad-op"
+		}
+		return r.drain(time.Duration(quiet) * time.Millisecond)
 	case fs[0] == "sync" && len(fs) >= 1:
 		return r.sync(fs[1:])
 	case fs[0] == "close" && len(fs) == 2:
@@ -622,6 +697,119 @@ func relayOp(r *relayInst, fs []string) string {
 	return "bad-op"
 }
 
+// lagRecord: 0xAB tag seq(4) len(4) body, body[i] = byte(seq*31 + i*7 + tag): every byte is checkable by the receiver
+func lagRecord(tag byte, seq uint32, size int) []byte {
+	b := make([]byte, 10+size)
+	b[0], b[1] = 0xAB, tag
+	binary.BigEndian.PutUint32(b[2:], seq)
+	binary.BigEndian.PutUint32(b[6:], uint32(size))
+	for i := 0; i < size; i++ {
+		b[10+i] = byte(int(seq)*31 + i*7 + int(tag))
+	}
+	return b
+}
+
+// drain: wait until no reading connection has received anything for `quiet` (bounded), then summarise what every
+// connection received since the last drain: per connection the records in order of arrival, compressed to runs
+// `<tag>:<first>-<last>`, and the number of bytes that are not part of an intact record.
+func (r *relayInst) drain(quiet time.Duration) string {
+	deadline := time.Now().Add(25 * time.Second)
+	for time.Now().Before(deadline) {
+		last := int64(0)
+		for _, w := range r.conns {
+			if l := atomic.LoadInt64(&w.lastRx); l > last {
+				last = l
+			}
+		}
+		if time.Since(time.Unix(0, last)) > quiet {
+			break
+		}
+		time.Sleep(2 * time.Millisecond)
+	}
+	// connections that got a close frame are probing the socket for up to 3 s: let them finish
+	for time.Now().Before(deadline) {
+		busy := false
+		for _, w := range r.conns {
+			w.mu.Lock()
+			if w.closed && !w.eof && time.Since(time.Unix(0, atomic.LoadInt64(&w.lastRx))) < 3200*time.Millisecond {
+				busy = true
+			}
+			w.mu.Unlock()
+		}
+		if !busy {
+			break
+		}
+		time.Sleep(10 * time.Millisecond)
+	}
+	mem := r.members()
+	out := []string{}
+	for i, w := range r.conns {
+		w.mu.Lock()
+		var stream []byte
+		for _, f := range w.frames {
+			stream = append(stream, f...)
+		}
+		w.frames = nil
+		st := "open"
+		if w.closed {
+			st = "closed"
+			if w.eof {
+				st = "eof"
+			}
+		}
+		if _, in := mem[w.name]; !in {
+			st += "/gone"
+		}
+		if atomic.LoadInt32(&w.paused) == 1 {
+			st += "/stalled"
+		}
+		w.mu.Unlock()
+		runs := []string{}
+		bad := 0
+		curTag, first, lastSeq := -1, uint32(0), uint32(0)
+		flush := func() {
+			if curTag >= 0 {
+				runs = append(runs, fmt.Sprintf("%d:%d-%d", curTag, first, lastSeq))
+			}
+			curTag = -1
+		}
+		for p := 0; p < len(stream); {
+			okRec := false
+			if stream[p] == 0xAB && p+10 <= len(stream) {
+				tag, seq, n := stream[p+1], binary.BigEndian.Uint32(stream[p+2:]), int(binary.BigEndian.Uint32(stream[p+6:]))
+				if n <= 1<<20 && p+10+n <= len(stream) {
+					okRec = true
+					for q := 0; q < n; q++ {
+						if stream[p+10+q] != byte(int(seq)*31+q*7+int(tag)) {
+							okRec = false
+							break
+						}
+					}
+					if okRec {
+						if curTag == int(tag) && seq == lastSeq+1 {
+							lastSeq = seq
+						} else {
+							flush()
+							curTag, first, lastSeq = int(tag), seq, seq
+						}
+						p += 10 + n
+					}
+				}
+			}
+			if !okRec {
+				bad++
+				p++
+				if bad > 200000 {
+					break
+				}
+			}
+		}
+		flush()
+		out = append(out, "n"+strconv.Itoa(i)+"="+st+":"+strings.Join(runs, ",")+":bad"+strconv.Itoa(bad))
+	}
+	return "drain " + strings.Join(out, " ")
+}
+
 func queryEsc(s string) string {
 	var b strings.Builder
 	for i := 0; i < len(s); i++ {
@@ -647,11 +835,11 @@ func (r *relayInst) conn(f string) *wsConn {
 }
 
 // sync: make everything sent so far observable, deterministically.
-// 1. every message written by a client has been read by its server-side readPump once a marker written
-//    after it on the same socket has been relayed (markers go to a private witness per writer) — instead
-//    we use the hub itself: for each open connection send a ping-like marker on a dedicated topic?  Not
-//    possible without an extra token, so: wait until all queues are empty and the byte counts stop changing
-//    for `quiet` ms; `expect` (optional: n<k>=<bytes>) makes the wait end early and never too early.
+//  1. every message written by a client has been read by its server-side readPump once a marker written
+//     after it on the same socket has been relayed (markers go to a private witness per writer) — instead
+//     we use the hub itself: for each open connection send a ping-like marker on a dedicated topic?  Not
+//     possible without an extra token, so: wait until all queues are empty and the byte counts stop changing
+//     for `quiet` ms; `expect` (optional: n<k>=<bytes>) makes the wait end early and never too early.
 func (r *relayInst) sync(expect []string) string {
 	want := map[int]int{}
 	for _, e := range expect {
